@@ -29,6 +29,9 @@ CHECKS = {
  'C06': dict(cat='model_checking', design='5/C06', technique='TLC-enumerated boundary values encoded/decoded by the real codecs; every recorded (value, bytes, decoded) execution validated by a TLC trace spec that decodes the bytes with the independent TLA+ reference decoder',
    text='TLC enumerates data-model values at every integer width, float exactness, string/array/map length boundary plus the CBOR string-reference family; the harness records what the real encoders emit (DOM, streaming, pack_strings) and what the real decoder reads back; Trace_C06 accepts a line only if the TLA+ reference decoder reads the bytes completely to the documented image of the value (float widening, any NaN, unordered maps, resolved string references) and the library decode equals it.',
    note='Formats validated: see evidence coverage.formats (CBOR first; MessagePack/UBJSON/BSON join when their reference decoders are integrated). Typed-array and semantic-tag round trips are not yet in the universe.'),
+ 'C08': dict(cat='model_checking', design='5/C08', technique='TLA+ PDA of the visitor event grammar enumerates well-formed event sequences with right/wrong/absent declared lengths; recorded encoder outputs validated by a TLC trace spec using the independent reference decoders and the RFC 8259 recogniser',
+   text='TLC enumerates every complete, grammatical event sequence up to 6 (7) events; the harness pushes each into the real encoders and records output or error; Trace_C08 accepts only an error or an output that the independent TLA+ decoder reads completely back to exactly the pushed value (JSON text: strict JsonText acceptance and documented image). All inputs accepted in the C07 CBOR byte space are additionally decoded and re-written as compact/pretty JSON text, which must be valid RFC 8259.',
+   note='Encoders judged: see evidence coverage.encoders. CSV/TOON encoders and typed-array events are not in this check.'),
 }
 NA = {}
 
